@@ -29,8 +29,20 @@ def make_index(ix, sizes):
         if x == "i":
             idx.append(1)
             ax += 1
+        elif x == "in":
+            idx.append(np.int64(-1))
+            ax += 1
         elif x == "s":
             idx.append(slice(None))
+            ax += 1
+        elif x == "s2":
+            idx.append(slice(None, None, 2))
+            ax += 1
+        elif x == "sr":
+            idx.append(slice(None, None, -1))
+            ax += 1
+        elif x == "a0":
+            idx.append(np.array(1))
             ax += 1
         elif x == "s1":
             idx.append(slice(0, 1))
